@@ -20,4 +20,4 @@ Extraction "model.ml"
   selector feval feature_filter shift_selector frag_ok frag_match repair merge_fragments alias_bytes alias_table entry_counts
   plan_delete plan_insert plan_rotate plan_split plan_extract
   default_registry scan_genbank auto_scan gb_show as_date table_parser wrap_space flatfile_split itoa
-  date_show table_show qualifier_parser.
+  date_show table_show qualifier_parser refs_slice ref_info_parser.
